@@ -255,6 +255,23 @@ def validate_native(E, paths, lv, conc, out, nmax=2):
         vals = lv.model_values(mdl)
         res = conc(vals)
         done += 1
+        if not isinstance(res, dict) and done == 1 and len(lv.vars) > 1:
+            # a second, degenerate valuation: as many same-kind values as possible coincide (collisions between equal
+            # values - caches keyed by value, de-duplication - are invisible to distinct symbolic terms)
+            by_kind = {}
+            for (_, k, v) in lv.vars:
+                by_kind.setdefault(k, []).append(v)
+            eqs = [a == b for vs in by_kind.values() for a, b in zip(vs, vs[1:])]
+            keep = []
+            for e_ in eqs:
+                r2, _ = E.query(pth, z3.BoolVal(True), extra=keep + [e_])
+                if r2 == "sat":
+                    keep.append(e_)
+            if keep:
+                r2, mdl2 = E.query(pth, z3.BoolVal(True), extra=keep)
+                if r2 == "sat":
+                    res = conc(lv.model_values(mdl2))
+                    done += 1
         if isinstance(res, dict):
             res["what"] = "native run differs from the reference although the symbolic run found no difference (encoder gap): " + str(res.get("what"))
             out["result"] = "violation"
